@@ -270,8 +270,7 @@ def handleCls (cls : String) (j : Json) : E Out := do
         let ns ← req (natList? nj)
         if (ns.zip d.shape).any (fun p => p.1 > p.2) then throw "ValueError"
         for (npix, n) in ns.zip d.shape do
-          let start := if center then (n - npix) / 2 else 0
-          sel := sel ++ [(List.range npix).map (start + ·)]
+          sel := sel ++ [sliceSel n npix center]
     let tsh := (doms.zip nsj).map fun dn => match natList? dn.2 with
       | some ns => ns
       | none => dn.1.shape
